@@ -56,3 +56,22 @@ package history
 //@   loop 4 invariant ina: forall j int :: 0 <= j && j < idx4 ==> !odd(r.Time.MTimeTracked[index(m.Cfg.TrackedStates, query.Inactive[j])])
 //@   loop 3 invariant actd: forall j int :: 0 <= j && j < idx3 ==> odd(r.Time.MTimeTracked[index(m.Cfg.TrackedStates, query.Activated[j])])
 //@   loop 5 invariant dea: forall j int :: 0 <= j && j < idx5 ==> !odd(r.Time.MTimeTracked[index(m.Cfg.TrackedStates, query.Deactivated[j])])
+
+// The in-memory store stays within MaxRecords: one record is appended per
+// matching transition, the oldest one is rotated out when the store is full,
+// every stored record carries the tracked times of the tracked states.
+//@ func (t *tracer) TransitionEnd(tx *am.Transition)
+//@   props C17
+//@   abstracts the machine (am.Api) and the wall clock are opaque; Transition getters are used through their contracts
+//@   requires nn:   t.mem != nil && t.mem.BaseMemory != nil && t.mem.Cfg != nil && t.mem.Mach != nil && t.mem.machRec != nil && tx != nil && tx.Mutation != nil && tx.Mutation.cacheCalled != nil
+//@   requires cfg:  t.mem.Cfg.MaxRecords >= 1 && len(t.mem.cacheTrackedIdxs) == len(t.mem.Cfg.TrackedStates) && (forall i int :: 0 <= i && i < len(t.mem.cacheTrackedIdxs) ==> t.mem.cacheTrackedIdxs[i] >= 0)
+//@   requires recs: len(t.mem.db) <= t.mem.Cfg.MaxRecords && (forall i int :: 0 <= i && i < len(t.mem.db) ==> RecOK(t.mem, t.mem.db[i]))
+//@   requires locks: unlocked(t.mem.mx)
+//@   assigns  t.mem.BaseMemory.db, t.mem.BaseMemory.mx, MachineRecord.MTime, MachineRecord.MTimeSum, MachineRecord.LastSync, MachineRecord.MachTick, MachineRecord.NextId
+//@   ensures  bounded: len(t.mem.db) <= t.mem.Cfg.MaxRecords
+//@   ensures  step:    len(t.mem.db) == old(len(t.mem.db)) || len(t.mem.db) == old(len(t.mem.db)) + 1 || (old(len(t.mem.db)) == t.mem.Cfg.MaxRecords && len(t.mem.db) == t.mem.Cfg.MaxRecords)
+//@   ensures  recs:    forall i int :: 0 <= i && i < len(t.mem.db) ==> RecOK(t.mem, t.mem.db[i])
+//@   ensures  times:   !unchanged(t.mem.db) ==> len(t.mem.db) >= 1 && fresh(t.mem.db[len(t.mem.db) - 1]) && (forall i int :: 0 <= i && i < len(t.mem.cacheTrackedIdxs) && t.mem.cacheTrackedIdxs[i] < len(tx.TimeAfter) ==> t.mem.db[len(t.mem.db) - 1].Time.MTimeTracked[i] == tx.TimeAfter[t.mem.cacheTrackedIdxs[i]])
+//@   ensures  kept:    !unchanged(t.mem.db) ==> (forall i int :: 0 <= i && i < len(t.mem.db) - 1 ==> t.mem.db[i] == old(t.mem.db)[i + (old(len(t.mem.db)) >= t.mem.Cfg.MaxRecords ? 1 : 0)])
+//@   ensures  skipped: old(tx.Mutation.IsCheck) || (!old(tx.IsAccepted) && !t.mem.Cfg.TrackRejected) ==> unchanged(t.mem.db)
+//@   ensures  locks:   unlocked(t.mem.mx)
